@@ -24,7 +24,7 @@ func vrfCode(replies []string) int {
 // is too large (nd > 0: a SIZE parameter of nd digits), otherwise at the end of DATA — nothing of
 // it is delivered, messages within the limit are accepted, and the session stays usable.
 func VerifC06Size(nd int, kw int) {
-	limit := vrf.Int("limit", 1, 60000)
+	limit := vrf.Int("limit", 0, 60000)
 	bodyLen := vrf.Int("bodyLen", 0, 70000)
 	mgr := &vrfManager{}
 	root := &config.Root{
